@@ -424,7 +424,14 @@ fn main() {
                 let rpr = catch(|| dicom_object::from_reader(&wa[..]));
                 let rnp = catch(|| dicom_object::open_file(&p2));
                 let rnr = catch(|| dicom_object::from_reader(nopre));
-                for (k, res) in [("pp", rpp), ("pr", rpr), ("np", rnp), ("nr", rnr)] {
+                // the same two byte sources with the preamble option stated outright (Always / Never)
+                let rpa = catch(|| {
+                    dicom_object::OpenFileOptions::new().read_preamble(dicom_object::file::ReadPreamble::Always).from_reader(&wa[..])
+                });
+                let rnn = catch(|| {
+                    dicom_object::OpenFileOptions::new().read_preamble(dicom_object::file::ReadPreamble::Never).from_reader(nopre)
+                });
+                for (k, res) in [("pp", rpp), ("pr", rpr), ("np", rnp), ("nr", rnr), ("pR", rpa), ("nR", rnn)] {
                     match res {
                         Ok(x) => line.push_str(&format!(" R {} {}", k, read_res(x, &ds))),
                         Err(_) => line.push_str(&format!(" R {} panic", k)),
